@@ -16,6 +16,11 @@
 (*         input: the handler must get Native(in), whatever Go type the raw    *)
 (*         input has (a step whose input scope is map-based unserializes       *)
 (*         map[string]any to map[string]any: the contract is the same).        *)
+(*         "inv" stands for every raw input the schema rejects, whatever the   *)
+(*         schema's own error looks like: also when that error has, among its  *)
+(*         causes, an error of the type that reports an unknown step (the      *)
+(*         units parser's BadArgumentError for an unreadable quantity), the    *)
+(*         outcome class is "invalidinput", never "badarg".                    *)
 (* beh   = what the step handler returns: "ok" (declared id, conforming data   *)
 (*         whose in-memory form IS its serialized form), "okr" (declared id,   *)
 (*         conforming data in an in-memory representation that DIFFERS from    *)
@@ -24,7 +29,9 @@
 (*         call must return the serialized form, whatever the Go type of the   *)
 (*         handler's value),                                                   *)
 (*         "ok2" (second declared id), "undeclared" (undeclared output id),    *)
-(*         "baddata" (declared id, data the output schema rejects).            *)
+(*         "baddata" (declared id, data the output schema rejects - among them *)
+(*         nil data for an output all of whose properties are optional: the    *)
+(*         empty object would conform, nil does not).                          *)
 (*                                                                             *)
 (* One action per stage of the code:                                           *)
 (*   Begin -> Lookup -> UnserializeInput -> Setup (SetupHit | InitBegin,       *)
